@@ -1,4 +1,5 @@
 import IV.Lemmas.Peg
+import IV.Lemmas.PegPos
 import IV.Gen.Grammars
 /-!
 C19 — parser combinators implement ordered-choice PEG semantics.
@@ -526,6 +527,117 @@ theorem choice_nesting_invisible (rules : List Term) (inp : Str) (a b c : Term) 
     · exact .inr ⟨ha, .inl ⟨hok, hb⟩⟩
     · simp at h0
     · exact .inr ⟨ha, .inr ⟨hb, hc⟩⟩
+
+
+/-! ### PosMarker, Context.line / Context.col, skip_none (round 10) -/
+
+/-- `ctx.line(pos)` / `ctx.col(pos)` — a bisection over the offsets of the newlines — ARE the textbook line and
+column (0-based) of every position inside the input or at its end: read the text before the position left to
+right, a newline starts the next line at column 0, every other character advances the column. -/
+theorem line_col_textbook (inp : Str) (pos : Nat) (h : pos ≤ inp.length) :
+    (lineOf inp pos, colOf inp pos) = lineColSpec inp pos := lineCol_eq_spec inp pos h
+
+example : (lineOf "ab\ncd".toList 4, colOf "ab\ncd".toList 4) = (1, 1) ∧ lineColSpec "ab\ncd".toList 4 = (1, 1) := by decide
+
+/-- … in particular the line is the number of newlines before the position -/
+theorem line_counts_newlines (inp : Str) (pos : Nat) (h : pos ≤ inp.length) :
+    lineOf inp pos = ((inp.take pos).filter (· = '\n')).length := by
+  have := congrArg Prod.fst (lineCol_eq_spec inp pos h)
+  simp only [lineColSpec, lcStep_fst] at this
+  simpa using this
+
+example : lineOf "\n\nx".toList 2 = 2 := by decide
+
+/-- the Mark a PosMarker builds carries the textbook line and column, 1-based, of the position handed to it -/
+theorem mark_value_textbook (inp : Str) (pos : Nat) (v : Val) (h : pos ≤ inp.length) :
+    markVal inp pos v =
+      .obj "Mark".toList [.int ((lineColSpec inp pos).1 + 1), .int ((lineColSpec inp pos).2 + 1), v] := by
+  rw [← lineCol_eq_spec inp pos h]; rfl
+
+example : markVal "a\nb".toList 2 (.str ['b']) = .obj "Mark".toList [.int 2, .int 1, .str ['b']] := by rfl
+
+/-- PosMarker is transparent: it succeeds exactly when its child does, ends where the child ends, leaves the
+state the child leaves, and wraps the child's value — None / 0 / '' / [] included — into the Mark of the position
+where the child STARTED (not where it ended). -/
+theorem posmarker_marks_start (rules : List Term) (inp : Str) (f : Nat) (t : Term) (pos p : Nat) (v : Val)
+    (σ σ' : St) (hσ : σ.ferr = false) (h : run rules inp f t pos σ = (.ok p v, σ')) :
+    run rules inp (f + 1) (.mark t) pos σ = (.ok p (markVal inp pos v), σ') := by
+  simp only [run, hσ, Bool.false_eq_true, ↓reduceIte, h]
+
+/-- the hypotheses are met by a concrete run; the conclusion then gives the Mark of line 1, column 1 -/
+example : run [] ['a'] 2 (chr 'a') 0 St.init = (.ok 1 (.str ['a']), St.init) ∧ St.init.ferr = false := by
+  simp [run, chr, Prim.run, St.init]
+example : run [] ['a'] 3 (.mark (chr 'a')) 0 St.init = (.ok 1 (markVal ['a'] 0 (.str ['a'])), St.init) :=
+  posmarker_marks_start [] ['a'] 2 (chr 'a') 0 1 _ St.init St.init rfl (by simp [run, chr, Prim.run, St.init])
+
+theorem posmarker_fails_with_child (rules : List Term) (inp : Str) (f : Nat) (t : Term) (pos : Nat)
+    (σ σ' : St) (h : run rules inp f t pos σ = (.fail, σ')) :
+    run rules inp (f + 1) (.mark t) pos σ = (.fail, if σ.ferr then σ else σ') := by
+  simp only [run, h]
+  split <;> rfl
+
+example : run [] ['x'] 2 (chr 'a') 0 St.init = (.fail, St.init) := by simp [run, chr, Prim.run, St.init]
+
+/-- and nothing else: whatever a PosMarker returns is the Mark of a value its child returned from the same
+start to the same end -/
+theorem posmarker_inv (rules : List Term) (inp : Str) (f : Nat) (t : Term) (pos p : Nat) (w : Val)
+    (σ σ' : St) (h : run rules inp (f + 1) (.mark t) pos σ = (.ok p w, σ')) :
+    ∃ v, run rules inp f t pos σ = (.ok p v, σ') ∧ w = markVal inp pos v := by
+  simp only [run] at h
+  split at h
+  · cases h
+  · rcases ha : run rules inp f t pos σ with ⟨_ | _ | _, σ1⟩ <;> rw [ha] at h <;> simp only at h <;> cases h
+    exact ⟨_, rfl, rfl⟩
+
+example : run [] ['a'] 3 (.mark (chr 'a')) 0 St.init = (.ok 1 (markVal ['a'] 0 (.str ['a'])), St.init) := by
+  simp [run, chr, Prim.run, St.init]
+
+/-- in the PEG relation: the outcomes of `mark t` are exactly the marked outcomes of `t` -/
+theorem ev_mark_iff (rules : List Term) (inp : Str) (t : Term) (pos : Nat) (r : Res) :
+    Ev rules inp (.mark t) pos r ↔
+      (∃ p v, Ev rules inp t pos (.ok p v) ∧ r = .ok p (markVal inp pos v)) ∨ (Ev rules inp t pos .fail ∧ r = .fail) := by
+  constructor
+  · intro h
+    cases h with
+    | markOk h1 => exact .inl ⟨_, _, h1, rfl⟩
+    | markFail h1 => exact .inr ⟨h1, rfl⟩
+  · rintro (⟨p, v, h1, rfl⟩ | ⟨h1, rfl⟩)
+    · exact .markOk h1
+    · exact .markFail h1
+
+example : Ev [] ['a'] (.mark (chr 'a')) 0 (.ok 1 (markVal ['a'] 0 (.str ['a']))) :=
+  .markOk (.primOk (by simp [Prim.run]))
+
+/-- `skip_none` drops exactly the None entries of a list: what remains is a sub-list in the same order, holds
+no None, and keeps every other entry — 0, '', [] and False included -/
+theorem skip_none_spec (vs : List Val) :
+    ∃ ws, Fn.skipNone.apply (.list vs) = .ok (.list ws) ∧ ws.Sublist vs ∧ (∀ w ∈ ws, w.notNone = true) ∧
+      (∀ v ∈ vs, v.notNone = true → v ∈ ws) :=
+  ⟨vs.filter Val.notNone, rfl, List.filter_sublist, fun w hw => (List.mem_filter.mp hw).2,
+    fun v hv hn => List.mem_filter.mpr ⟨hv, hn⟩⟩
+
+example : Fn.skipNone.apply (.list [.none, .int 0, .str [], .none, .list []]) = .ok (.list [.int 0, .str [], .list []]) := by
+  rfl
+
+/-! ### deep nesting (known finding json-deep-nesting) -/
+
+/-- `[[[…[1]…]]]`, n brackets deep -/
+def deepVal : Nat → Val
+  | 0 => .int 1
+  | n + 1 => .list [deepVal n]
+
+open IV.Gen.Grammars in
+/-- PEG semantics (the translated JSON grammar at the fuel of `no_divergence`) ACCEPTS an array nested 100 deep and
+returns the nested value, as json.loads does.  The Python implementation rejects the same document with a
+parse error: the interpreter's recursion limit is reached inside the combinators (about eight frames per level) and
+the RecursionError is swallowed by the `except` clauses of Choice / Many / Opt / `__call__` as if an alternative had
+failed (known finding json-deep-nesting; the harness replays this document on every run). -/
+theorem json_deep_nesting_witness :
+    parsesTo jsonRules jsonTop "[[[[[[[[[[[[[[[[[[[[[[[[[[[[[[[[[[[[[[[[[[[[[[[[[[[[[[[[[[[[[[[[[[[[[[[[[[[[[[[[[[[[[[[[[[[[[[[[[[[[1]]]]]]]]]]]]]]]]]]]]]]]]]]]]]]]]]]]]]]]]]]]]]]]]]]]]]]]]]]]]]]]]]]]]]]]]]]]]]]]]]]]]]]]]]]]]]]]]]]]]"
+      (.list [deepVal 100, .none]) = true := by
+  decide +kernel
+
+example : deepVal 2 = .list [.list [.int 1]] := rfl
 
 /-! ### non-vacuity -/
 
